@@ -171,6 +171,11 @@ func VH_c02_update() {
 	res0, ok0 := ex0.UpdateList(false, false, upd, fp, fd)
 	verifrt.Reach("non-persisting")
 	verifrt.Assert("non-persisting-update-succeeds", ok0)
+	// the per-type method returns the updated list (not something else it happened to have at hand)
+	verifrt.Assert("update-returns-the-updated-list", l.IsRes(res0))
+	if !l.IsRes(res0) {
+		return
+	}
 	_ = pre // "a non-persisting update leaves the store unchanged" is asserted under C11 (VH_c11_update)
 	if asserted {
 		verifrt.Assert("non-persisting-result-equals-reference-fold", cmp(ref, res0))
@@ -179,6 +184,10 @@ func VH_c02_update() {
 	res, ok := ex.UpdateList(false, true, upd, fp, fd)
 	verifrt.Reach("updated")
 	verifrt.Assert("local-update-succeeds", ok)
+	verifrt.Assert("update-returns-the-updated-list", l.IsRes(res))
+	if !l.IsRes(res) {
+		return
+	}
 	if asserted {
 		verifrt.Reach("compared-with-reference")
 		verifrt.Assert("result-equals-reference-fold", cmp(ref, res))
@@ -194,11 +203,13 @@ func VH_c02_update() {
 		verifrt.Assert("second-application-succeeds", ok2)
 		// (a selector update that rewrites the very fields it selects on is not idempotent by nature)
 		touches := false
-		if sel != nil && l.Len(upd) > 0 {
-			for _, f := range l.SelFields {
-				uf := vhF(l.At(upd, 0), f)
-				if uf.IsValid() && vhF(sel, f).Kind() == reflect.Ptr {
-					touches = verifrt.Any(touches, verifrt.All(!vhF(sel, f).IsNil(), !uf.IsNil()))
+		if sel != nil {
+			for i := 0; i < l.Len(upd); i++ {
+				for _, f := range l.SelFields {
+					uf := vhF(l.At(upd, i), f)
+					if uf.IsValid() && vhF(sel, f).Kind() == reflect.Ptr {
+						touches = verifrt.Any(touches, verifrt.All(!vhF(sel, f).IsNil(), !uf.IsNil()))
+					}
 				}
 			}
 		}
